@@ -132,8 +132,21 @@ def trace_part(ev, prop, part, family, binaries, p, vine, nwalks, steps, nmax, m
                    "file": fn, "line": m + 1, "obs_checks_failed": bad.get("obs", {}).get("checks_failed")}
             if not (fnd and matchers and fnd.match(prop, dev, matchers) is not None):
                 unknown.append(dev)
+    # a crash of the library during a free-running history ends that configuration: its record is in the replay output
+    ncrash = 0
+    for bi in range(len(binaries)):
+        op = os.path.join(work, "out_%d.ndjson" % bi)
+        if not os.path.exists(op):
+            continue
+        for rec in vf.read_ndjson(op):
+            if rec.get("kind") == "crash":
+                ncrash += 1
+                dev = crash_as_dev(prop, rec, part)
+                dev.update({"kind": "crash", "signal": rec.get("signal"), "where": rec.get("where"), "part": part})
+                if not (fnd and matchers and fnd.match(prop, dev, matchers) is not None):
+                    unknown.append(dev)
     ev.cov["traces_validated_against_impl"] += len(files)
-    ev.parts[part] = {"trace_files": len(files), "events_matched": nev, "walks": nwalks, "max_cells": nmax, "p": p,
+    ev.parts[part] = {"trace_files": len(files), "events_matched": nev, "walks": nwalks, "max_cells": nmax, "p": p, "library_crashes": ncrash,
                       "spec": "Trace_PersistenceMatrix.tla (legality of each step, barcode = Bars(F'), B = boundaries of F', R reduced and "
                               "matching the barcode, U triangular, B = R.U^T / R = B.U, chain columns: leading cells, cycles, boundary of a "
                               "paired column = multiple of its partner - all evaluated by TLC)"}
